@@ -19,7 +19,7 @@ def prop(pid, level, technique, text, note, claimed=True, reason=None):
 
 prop("C01", "model_checking",
      "exhaustive enumeration of all ordered pairs of reachable replica states x initiator x backend x reconciliation parameters, each session executed on the real code and compared with the reference join",
-     "Every ordered pair of replica states reachable from small subsets of the entry universe is reconciled by the real Replica::sync_* functions (memory and file-backed redb, every parameter setting) and must terminate, converge to the reference join, mirror counters and be followed by an empty second session.",
+     "Every ordered pair of replica states reachable from small subsets of the entry universe is reconciled by the real Replica::sync_* functions (memory and file-backed redb, every parameter setting) and must terminate, converge to the reference join, mirror counters, report in its outcome exactly the entries and per-author newest timestamps the messages carried, and be followed by an empty second session.",
      "Bounded: subsets of <=2 (quick) / <=3 (thorough) entries plus a large-state family; blake3/XOR fingerprint collisions and values outside the alphabet are not covered.")
 prop("C02", "model_checking",
      "exhaustive enumeration of all operation sequences up to a depth over a small entry alphabet on the real replica, compared step by step with a reference model and with the from-scratch definition",
@@ -39,7 +39,7 @@ prop("C10", "fault_enumeration",
      "In-memory duplex transport; deadlines only as hang detectors with a 10x re-run.")
 prop("C11", "model_checking",
      "explicit-state breadth-first search over the real coordination handlers of two LiveActors (dial decisions, request delivery/loss, accept/decline, independent completion of both session ends, captured resync dials), canonical state from the implementation's coordination snapshot plus in-flight dials, invariants S1-S5 on every state",
-     "Two real LiveActors (never run) are driven through sync_with_peer, accept_sync_request and the two completion handlers with synthetic session results; every interleaving of up to 3 (quick) / 4 (thorough) dials is explored; at most one session in progress, crossing dials resolve to exactly one accepted, a refused sync report yields exactly one follow-up at the end of the running session, every quiescent state is Idle on both nodes, unsynced documents are declined NotFound; the search is repeated with one node leaving the document and with a content download of the document queued at both nodes.",
+     "Two real LiveActors (never run) are driven through sync_with_peer, accept_sync_request and the two completion handlers with synthetic session results; every interleaving of up to 3 (quick) / 4 (thorough) dials is explored; at most one session in progress, crossing dials resolve to exactly one accepted, a refused sync report yields exactly one follow-up at the end of the running session, every quiescent state is Idle on both nodes, unsynced documents are declined NotFound; the search is repeated with one node leaving the document, with a content download of the document queued at both nodes, and with triggers and requests delivered as actor messages (neighbour up, a neighbour's sync report carrying news, accept request with its reply channel) through on_actor_message.",
      "Network abstracted to deliver/lose and independent completions; besides the coordination state the handlers read only whether a download of the document is queued (explored both ways) and the subscriber list (empty).")
 prop("C12", "model_checking",
      "exhaustive enumeration of all request sequences up to a depth (local/remote writes, messages of a reconciliation session with a real peer, subscriber churn, policy changes) through the real store actor, every subscriber's drained event list compared with the reference model after every acknowledged request",
@@ -47,7 +47,7 @@ prop("C12", "model_checking",
      "Bounded depth; events compared after the acknowledging reply.")
 prop("C13", "model_checking",
      "exhaustive enumeration of all operation sequences up to a depth (inserts of a two-author universe, document removal and re-creation) on the real store against reference heads, plus exhaustive enumeration of small author-head sets x all size limits for the codec",
-     "Heads and has_news_for_us are compared with the reference replica after every history of <=3 (quick) / <=4 (thorough) steps for all 16 peer reports; AuthorHeads::encode/decode is checked on all 2401 head sets of <=4 authors over 6 varint-edge timestamps (ties included) under every size limit.",
+     "Heads and has_news_for_us are compared with the reference replica after every history of <=3 (quick) / <=4 (thorough) steps for all 16 peer reports; AuthorHeads::encode/decode is checked on all 4166 head sets of <=4 authors over 7 varint-edge timestamps (ties included) under every size limit; the head set as a data structure (insert keeps the maximum, merge, has_news_for) on every sequence of <=4 inserts and every split; a neighbour's sync report delivered to a real idle LiveActor leads to a dial exactly when it is news for the document as held.",
      "Bounded depth/alphabet; limit 0 excluded (unsatisfiable); any key attaining the maximum is accepted as the head's key.")
 prop("C03", "exploration",
      "exhaustive enumeration of a single-fault tamper alphabet (every byte position x 4 alterations, signature substitutions, foreign keys, boundary timestamps, emptiness combinations) x both ingress paths x every position of hand-assembled reconciliation messages, against an independent acceptance predicate",
